@@ -33,7 +33,9 @@ RUNS = {"quick": 120_000, "thorough": 3_000_000}
 RULE = ("seeded histories: 2-3 operations (priorities 0..3, all started first, sometimes at different virtual times), 2-3 "
         "resources (each pre-emptable or not), then depth <=8 (quick) / <=14 (thorough) steps, ~70 % acquisitions biased "
         "towards resources somebody else holds (re-entrant and repeated attempts included), the rest release / complete / "
-        "abort / watchdog.execute (priority or oldest strategy, optional time limit) / check_and_boost / clock; after every "
+        "abort (more often for operations that are blocked or waited on) / re-start of an ended id / watchdog.execute (priority "
+        "or oldest strategy, optional time limit) / check_and_boost / clock; seeded families: ring, pre-emption, inheritance-then-retry, double wait, "
+        "end-while-blocked-then-restart; after every "
         "step check_deadlock() is compared with a reference wait-for relation recomputed from the history and the real "
         "lock owners; non-trivial = a history in which at least one acquisition was BLOCKED; distinct = distinct "
         "(configuration, start list, step list)")
@@ -49,11 +51,13 @@ ASSUMPTIONS = ["W waits for r iff W is live, W's last attempt on r was BLOCKED a
                "the victim may be minimal by its current (possibly inherited) or by its original priority; ties are free",
                "the victim clauses are judged only when watchdog.execute returns a DEADLOCK event for a cycle that was "
                "reported immediately before the call and that passed the cycle_live clause",
-               "operation ids are not reused within a history"]
+               "an operation id may be started again after it ended (never while live); the restarted operation is a fresh "
+               "live operation with no waits"]
 EXPECT_PROBES = ("blocked", "preempted", "reentrant", "ref_cycle", "ref_cycle_3", "reported_cycle", "agree_cycle",
                  "deadlock_handled", "victim_judged", "oldest_strategy_judged", "boost_applied", "stale_block_ambiguous",
                  "abort_while_waiting", "end_while_waited_on", "release_unrelated_while_waited_on",
-                 "acquire_while_waiting", "timeout_kill")
+                 "acquire_while_waiting", "timeout_kill", "complete_while_waiting", "restarted",
+                 "restarted_after_ending_blocked", "restarted_after_ending_waited_on", "preempted_while_waiting_for_it")
 
 OPS = ["A", "B", "C"]
 RES = ["r0", "r1", "r2"]
@@ -80,6 +84,11 @@ def gen(rng, tier, i):
     # a light model of who holds what, only to bias the choice (never used by the oracle)
     held = {}       # r -> op
     live = list(OPS[:nops])
+    waits = set()   # (waiter, holder) guesses
+    wants = set()   # operations that asked for something another one held (probably blocked)
+    prio_of = {p_[1]: p_[2] for p_ in pre if p_[0] == "start"}
+    p_restart = rng.choice([0.0, 0.4, 0.6, 0.8])
+    pending = []    # restarts to place after the next step
     p_acq = rng.choice([0.6, 0.7, 0.7, 0.8])
     if rng.random() < 0.2 and nres >= 2:
         # ring family: everybody takes one resource, then asks for the neighbour's (noise follows / is interleaved)
@@ -108,7 +117,53 @@ def gen(rng, tier, i):
         ops = ring[:j] + push[:1] + ring[j:] + push[1:]
         held = {"r0": "A", "r1": "B"}
         depth = max(depth, len(ops) + 2)
+    elif rng.random() < 0.06 and nops == 3:
+        # inheritance family: a blocked operation inherits a waiter's priority, retries and now pre-empts
+        res = dict(res)
+        res["r0"] = True
+        cfg["res"] = res
+        pre = [["start", "A", 1], ["start", "B", rng.choice([0, 1])], ["start", "C", 3]]
+        prio_of = {"A": 1, "B": pre[1][2], "C": 3}
+        ops = [["acq", "A", "r0"], ["acq", "B", "r1"], ["acq", "B", "r0"], ["acq", "C", "r1"], ["boost"], ["acq", "B", "r0"]]
+        if rng.random() < 0.5:
+            ops.insert(rng.randrange(3, 6), ["acq", "A", "r1"])
+        held = {"r0": "B", "r1": "B"}
+        wants.update(["B", "C"])
+        depth = max(depth, len(ops) + 2)
+    elif rng.random() < 0.1 and nres == 3:
+        # double-wait family: W waits for two resources of H; H gives one back and then wants something of W
+        h_, w_ = rng.sample(OPS[:nops], 2)
+        rs = list(RES)
+        rng.shuffle(rs)
+        ops = [["acq", h_, rs[0]], ["acq", h_, rs[1]], ["acq", w_, rs[2]], ["acq", w_, rs[0]], ["acq", w_, rs[1]],
+               ["rel", h_, rs[1]], ["acq", h_, rs[2]]]
+        if rng.random() < 0.5:
+            j = rng.randrange(2, 6)
+            ops.insert(j, rng.choice([["boost"], ["check"], ["acq", w_, rs[2]], ["acq", h_, rs[0]]]))
+        held = {rs[0]: h_, rs[1]: None, rs[2]: w_}
+        wants.update([h_, w_])
+        waits.update([(w_, h_), (h_, w_)])
+        depth = max(depth, len(ops) + 2)
+    elif rng.random() < 0.15:
+        # restart family: somebody ends while blocked (or while another waits for it), the same id is started
+        # again straight away and contention continues
+        a, b = rng.sample(OPS[:nops], 2)
+        ops = [["acq", a, "r0"], ["acq", b, "r1"], ["acq", a, "r1"]]
+        if rng.random() < 0.4:
+            ops.append(["acq", b, "r0"])
+        victim = rng.choice([a, a, b])
+        ops.append([rng.choice(["complete", "complete", "abort"]), victim])
+        ops.append(["start", victim, rng.choice([prio_of.get(victim, 0), 0, 2])])
+        held = {"r0": a, "r1": b}
+        for r in list(held):
+            if held[r] == victim:
+                held[r] = None
+        wants.add(a)
+        depth = max(depth, len(ops) + 3)
     while len(ops) < depth and live:
+        if pending:
+            ops.extend(pending)
+            pending = []
         x = rng.random()
         o = rng.choice(live)
         if x < p_acq:
@@ -122,8 +177,13 @@ def gen(rng, tier, i):
             ops.append(["acq", o, r])
             if held.get(r) is None:
                 held[r] = o
+            elif held.get(r) != o:
+                wants.add(o)
+                waits.add((o, held[r]))
         else:
-            kind = weighted(rng, [(3, "rel"), (1.3, "complete"), (1.3, "abort"), (2.2, "wd"), (1.0, "boost"),
+            hot = 2.5 if (o in wants or any(h == o for h in held.values())) else 1.0
+            waited_on = any(h == o for (_, h) in waits) and sum(1 for h in held.values() if h == o) >= 2
+            kind = weighted(rng, [(9 if waited_on else 3, "rel"), (1.3 * hot, "complete"), (1.3 * hot, "abort"), (2.2, "wd"), (1.0, "boost"),
                                   (0.6, "clock"), (0.5, "check")])
             if kind == "rel":
                 mine = [r for r in res if held.get(r) == o]
@@ -133,18 +193,31 @@ def gen(rng, tier, i):
                     held[r] = None
             elif kind in ("complete", "abort"):
                 ops.append([kind, o])
-                live.remove(o)
+                wants.discard(o)
+                waits = {(a_, b_) for (a_, b_) in waits if a_ != o and b_ != o}
                 for r in list(held):
                     if held[r] == o:
                         held[r] = None
+                if rng.random() < p_restart:
+                    again = ["start", o, rng.choice([prio_of.get(o, 0), prio_of.get(o, 0), rng.choice([0, 1, 2, 3])])]
+                    if rng.random() < 0.6:
+                        ops.append(again)
+                    else:
+                        pending.append(again)
+                else:
+                    live.remove(o)
             elif kind == "wd":
                 ops.append(["wd"])
+                if rng.random() < p_restart * 0.5:
+                    # whoever the watchdog may have killed comes back under the same id (skipped if still live)
+                    pending.append(["start", o, prio_of.get(o, 0)])
             elif kind == "boost":
                 ops.append(["boost"])
             elif kind == "clock":
                 ops.append(["clock", rng.choice([1.0, LIMIT / 2, LIMIT + 1.0])])
             else:
                 ops.append(["check"])
+    ops.extend(pending)
     if rng.random() < 0.5:
         ops.append(["wd"])
     return {"config": cfg, "pre": pre, "ops": ops}
@@ -159,11 +232,12 @@ def simplify(plan):
     for r, fl in cfg["res"].items():
         if fl:
             yield {**plan, "config": {**cfg, "res": {**cfg["res"], r: False}}}
-    for j, op in enumerate(plan["pre"]):
-        if op[0] == "start" and op[2] != 0:
-            pre = [list(o) for o in plan["pre"]]
-            pre[j][2] = 0
-            yield {**plan, "pre": pre}
+    for key in ("pre", "ops"):
+        for j, op in enumerate(plan[key]):
+            if op[0] == "start" and op[2] != 0:
+                lst = [list(o) for o in plan[key]]
+                lst[j][2] = 0
+                yield {**plan, key: lst}
 
 
 # ------------------------------------------------------------------------------------------ reference
@@ -248,13 +322,16 @@ def run(plan, k):
     ref = Ref(ctrl)
     ctxs = {}
     used = set()
+    ended_how = {}         # op -> (how, was waiting, was waited on) at the time it last ended
     prov = {}              # discrepancy (kind, w, b, r) -> (provenance string, step index)
     prev_rec = set()
     state = {"missed": False, "phantom": False}
     any_blocked = False
     scope = [seams.src("operon_ai/coordination/" + f) for f in ("controller.py", "types.py", "watchdog.py", "priority.py")]
 
-    def end(o, how):
+    def end(o, how, waiting=False, waited=False):
+        if o in ref.live:
+            ended_how[o] = (how, waiting, waited)
         ref.live.pop(o, None)
 
     def diagnose(step_i, cls, actor):
@@ -366,8 +443,18 @@ def run(plan, k):
                 k.ev("clock", op[1])
                 continue
             if name == "start":
+                if op[1] in ref.live:
+                    continue              # ids are never reused while live
                 if op[1] in used:
-                    continue
+                    # the same id again after it ended: a fresh live operation that waits for nothing
+                    k.probe("restarted")
+                    if ended_how.get(op[1], (None, False, False))[1]:
+                        k.probe("restarted_after_ending_blocked")
+                    if ended_how.get(op[1], (None, False, False))[2]:
+                        k.probe("restarted_after_ending_waited_on")
+                    for key in [x for x in ref.blocked if x[0] == op[1]]:
+                        del ref.blocked[key]
+                        ref.stale.pop(key, None)
                 used.add(op[1])
                 out = call(ctrl.start_operation, op[1], "agent-" + op[1], op[2], tracer=tr)
                 if out.kind != "ok":
@@ -387,6 +474,7 @@ def run(plan, k):
                     if r not in ctrl.resources:
                         continue
                     waiting_before = any(w_ == o for (w_, _, _) in ref.edges(False))
+                    was_blocked_on_r = any(w_ == o and r_ == r for (w_, _, r_) in ref.edges(False))
                     out = call(ctrl.acquire_resource, ctx, r, tracer=tr)
                     if out.kind != "ok":
                         k.violation("exact", "acquire_" + out.kind, "acquire", str(out.exc)[:200])
@@ -405,6 +493,8 @@ def run(plan, k):
                             k.probe("acquire_while_waiting")
                         if res == LockResult.PREEMPTED:
                             k.probe("preempted")
+                            if was_blocked_on_r:
+                                k.probe("preempted_while_waiting_for_it")
                             cls = "preemption"
                         else:
                             cls = "acquire_success"
@@ -424,15 +514,17 @@ def run(plan, k):
                         k.probe("release_unrelated_while_waited_on")
                     cls = "release"
                 else:
-                    if any(w_ == o for (w_, _, _) in ref.edges(False)) and name == "abort":
-                        k.probe("abort_while_waiting")
-                    if any(b == o for (_, b, _) in ref.edges(False)):
+                    was_waiting = any(w_ == o for (w_, _, _) in ref.edges(False))
+                    was_waited = any(b == o for (_, b, _) in ref.edges(False))
+                    if was_waiting:
+                        k.probe("abort_while_waiting" if name == "abort" else "complete_while_waiting")
+                    if was_waited:
                         k.probe("end_while_waited_on")
                     fn = ctrl.complete_operation if name == "complete" else ctrl.abort_operation
                     out = call(fn, ctx, tracer=tr) if name == "complete" else call(fn, ctx, "sim", tracer=tr)
                     if out.kind != "ok":
                         k.violation("exact", name + "_" + out.kind, name, str(out.exc)[:200])
-                    end(o, name)
+                    end(o, name, was_waiting, was_waited)
                     k.ev(name, [o])
             elif name == "boost":
                 out = call(pri.check_and_boost, ctrl, tracer=tr)
@@ -459,7 +551,7 @@ def run(plan, k):
                 for e in events:
                     if e.reason.name != "DEADLOCK":
                         k.probe("timeout_kill")
-                    end(e.operation_id, "watchdog")
+                    end(e.operation_id, "watchdog", True, True)
                 if dl:
                     k.probe("deadlock_handled")
                 if dl and before is not None:
